@@ -7,6 +7,7 @@ export PYTHONDONTWRITEBYTECODE=1
 if grep -rnE '\b(Admitted|admit|Axiom|Parameter|Conjecture|Admit Obligations|bypass_check|Unset Guard Checking|Unset Positivity Checking|Unset Universe Checking)\b' coq --include='*.v' | grep -v '^coq/Gen/' ; then
   echo "forbidden vernacular found"; exit 1
 fi
+/venv/bin/python -B tools/scan_assumptions.py || { echo "assumption declared in the development"; exit 1; }
 /venv/bin/python -B tools/translate/all.py || echo "warning: a translator failed on the current tree (the affected checks will report it)"
 /venv/bin/python -B - <<'PY'
 import sys
